@@ -234,7 +234,7 @@ func (v *verifier) genTables() string {
 		fmt.Fprintf(&sb, "(define-fun %s () Int %d)\n", n, t.ntByName[n])
 	}
 	// label -> NT and NT-child count, for complete (end-of-rule) slots
-	sb.WriteString("(declare-fun labelNT (Int) Int)\n(declare-fun labelNNT (Int) Int)\n")
+	sb.WriteString("(declare-fun labelNT (Int) Int)\n(declare-fun labelNNT (Int) Int)\n(assert (forall ((l Int)) (! (>= (labelNNT l) 0) :pattern ((labelNNT l)))))\n")
 	for _, si := range t.slots {
 		if int(si.Pos) != len(si.Symbols) {
 			continue
